@@ -114,7 +114,17 @@ def run(case, debug, scratch=None):
             if exc is not None:
                 out.append({"exc": type(exc).__name__ + ":" + str(exc)[:80]})
             else:
-                out.append(build.canon(mt, res))
+                c_ = build.canon(mt, res)
+                # what the matcher object reports about the match afterwards (documented attributes) belongs to the result
+                try:
+                    c_["path_pred"] = [list(x) if isinstance(x, tuple) else x for x in (mt.path_pred or [])] if mt.path_pred is not None else None
+                except Exception as e_:
+                    c_["path_pred"] = "raises " + type(e_).__name__
+                try:
+                    c_["path_pred_onlynodes"] = list(mt.path_pred_onlynodes) if mt.path_pred_onlynodes is not None else None
+                except Exception as e_:
+                    c_["path_pred_onlynodes"] = "raises " + type(e_).__name__
+                out.append(c_)
         monitors.run_history(mt, tr, case["ops"], after=after)
     finally:
         env.logger.setLevel(logging.ERROR)
@@ -172,12 +182,17 @@ def check_case(ctx, case):
             kind = "index-differs"
         elif [k for k, _ in a["path"]] != [k for k, _ in b["path"]]:
             kind = "path-differs"
+        elif a.get("path_pred") != b.get("path_pred") or a.get("path_pred_onlynodes") != b.get("path_pred_onlynodes"):
+            kind = "reported-path-attributes-differ"
         else:
             kind = "probabilities-differ"
         ctx.violation(f"C19:{kind}:{fam}:{mode}:after-{op['op']}", case, f"operation #{i} {op}: default level -> {str(a)[:500]}; DEBUG -> {str(b)[:500]}")
         break
     ctx.sample(case)
 
+
+# no clause depends on the coordinate unit: 8 % of the planar cases are expressed in a small unit (everything x 2^-7..2^-17)
+gen_case = mcase.scale_dimension(0.08)(gen_case)
 
 TECHNIQUE = "runtime monitoring: differential monitor over sibling executions (package logger at default level vs DEBUG, with null or stream handler) of generated operation histories"
 LEVEL_TEXT = ("{Q} (quick) / {T} (thorough) histories executed twice; returned states, index, best-path keys and probabilities after every operation "
